@@ -20,6 +20,7 @@ import (
 	"context"
 	mrand "math/rand"
 	"net"
+	"net/netip"
 	"strings"
 
 	"github.com/enfein/mieru/v3/apis/constant"
@@ -109,19 +110,25 @@ func (s *Server) rejectPrivateAndLoopbackIPAction(_ context.Context, in egress.I
 		domainName := asciiLower(req.DstAddr.FQDN)
 		isWellKnownIPv4LocalDomainName := domainName == ""
 		isWellKnownIPv6LocalDomainName := false
+		// An absolute domain name ("localhost.") names the same host.
+		localName := strings.TrimSuffix(domainName, ".")
 		for _, d := range wellKnownIPv4LocalDomainNames {
-			if domainName == d {
+			if localName == d {
 				isWellKnownIPv4LocalDomainName = true
 				break
 			}
 		}
 		for _, d := range wellKnownIPv6LocalDomainNames {
-			if domainName == d {
+			if localName == d {
 				isWellKnownIPv6LocalDomainName = true
 				break
 			}
 		}
-		if isWellKnownIPv4LocalDomainName {
+		if addr, err := netip.ParseAddr(req.DstAddr.FQDN); err == nil {
+			// An IP literal written as a domain name is used by the resolver
+			// and the dialer as that IP address, without a DNS lookup.
+			ip = net.IP(addr.WithZone("").Unmap().AsSlice())
+		} else if isWellKnownIPv4LocalDomainName {
 			ip = net.ParseIP("127.0.0.1")
 		} else if isWellKnownIPv6LocalDomainName {
 			ip = net.ParseIP("::1")
